@@ -54,7 +54,7 @@ type pathEnd struct {
 // isEngineAbort reports whether a recovered panic value must not be handled by target defers.
 func isEngineAbort(p any) bool {
 	switch p.(type) {
-	case pathEnd, unsupportedErr, goroutineKill:
+	case pathEnd, unsupportedErr, goroutineKill, crashNow:
 		return true
 	}
 	return false
@@ -707,7 +707,14 @@ func (e *Explorer) runPath(w *Worker, prefix []Decision, entryFn func(w *Worker)
 	e.UnknownBr += r.unknowns
 	switch end.kind {
 	case endUnsupported:
-		e.Unsupported[end.msg]++
+		key := end.msg
+		if i := strings.Index(key, "\ngoroutine "); i > 0 {
+			if len(e.Unsupported) < 3 {
+				fmt.Fprintln(os.Stderr, "gosym: unsupported path detail:", key)
+			}
+			key = key[:i]
+		}
+		e.Unsupported[key]++
 	case endBudget:
 		e.Budget++
 	}
